@@ -8,6 +8,7 @@ import (
 	"path/filepath"
 
 	"github.com/cube2222/octosql/config"
+	"github.com/cube2222/octosql/plugins/verifhook"
 )
 
 var octosqlFileExtensionHandlersFile = func() string {
@@ -55,9 +56,11 @@ func saveFileExtensionHandlers(handlers map[string]string) error {
 	// Every start-up reads this file: write a temporary file and rename it into place,
 	// so that an interrupted write never leaves a truncated file behind.
 	tmpPath := octosqlFileExtensionHandlersFile + ".tmp"
+	verifhook.WriteFile("ext.write-tmp", tmpPath, data)
 	if err := os.WriteFile(tmpPath, data, 0644); err != nil {
 		return fmt.Errorf("couldn't write file extension handlers to file: %w", err)
 	}
+	verifhook.Rename("ext.move", tmpPath, octosqlFileExtensionHandlersFile)
 	if err := os.Rename(tmpPath, octosqlFileExtensionHandlersFile); err != nil {
 		return fmt.Errorf("couldn't move file extension handlers file into place: %w", err)
 	}
